@@ -160,6 +160,15 @@ func (g *storeGenState) add(kind string, op sOp) {
 	g.kinds[kind]++
 }
 
+func storeHasNaN(ps []sPoint) bool {
+	for _, p := range ps {
+		if math.IsNaN(math.Float64frombits(p.VBits)) {
+			return true
+		}
+	}
+	return false
+}
+
 func (g *storeGenState) pickNode() string {
 	return g.nodes[g.r.Intn(len(g.nodes))]
 }
@@ -345,10 +354,29 @@ func storeGen(r *rand.Rand, id int, flavour string) *sScript {
 			}
 		default:
 			g.refused()
+			// after a refusal, re-send a node-point request that was accepted before: it must be accepted again
+			if r.Intn(2) == 0 {
+				var prev []sOp
+				for _, o := range g.ops {
+					if o.Kind == "np" && !storeHasNaN(o.Points) {
+						prev = append(prev, o)
+					}
+				}
+				if len(prev) > 0 {
+					g.add("resend-after-refusal", prev[r.Intn(len(prev))])
+				}
+			}
 		}
 	}
 	// a final ordinary write: the instance must still answer
 	g.add("final-write", sOp{Kind: "np", Node: storeRootID, Points: []sPoint{{Type: "value", Key: "final", Time: g.tick(), VBits: math.Float64bits(42)}}})
+	// ... and must still accept what it accepted before (first accepted node-point request, re-sent)
+	for _, o := range g.ops {
+		if o.Kind == "np" && !storeHasNaN(o.Points) {
+			g.add("final-resend", o)
+			break
+		}
+	}
 	s := &sScript{ID: id, Kind: flavour, Ops: g.ops}
 	for _, n := range g.nodes[1:] {
 		s.Nodes = append(s.Nodes, n)
